@@ -21,7 +21,37 @@ CHECKS['C08'] = dict(
          'Numeric values are abstracted to provenance terms (numeric agreement is C10).',
     note=ASSUME + '; Dhuhr always valid and Shurooq/Maghrib valid together (checked by C01/C06 rules)',
     technique='path-sensitive abstract interpretation of MIR over a finite predicate abstraction (skeleton worlds)')
-for _p in ['C01','C02','C03','C04','C05','C06','C09','C10','C11','C12','C13','C14','C15','C16','C19']:
+CHECKS['C01'] = dict(
+    text='Structural clauses only: Dhuhr is Ok in every outcome of the conventional layer and in every skeleton world (always reported); '
+         'modular-angle hygiene of every combination of wrapped angles - differences of the right ascension across days are continuous '
+         'for every position of the 360->0 seam (R1.2); the Dhuhr term depends on no method parameter and not on weather. '
+         'The 10-second agreement with an independent ephemeris is numeric and is not decided.',
+    note=ASSUME + '; the Sun\'s RA moves < 1.2 deg/day',
+    technique='typestate over skeleton worlds + term-level modular-arithmetic (residue) analysis + dependence (non-interference) on reconstructed terms')
+CHECKS['C05'] = dict(
+    text='Decides: exactly seven entries (key sets on every path, all outcomes), Fajr/Asr/Isha on the correct side of the very Dhuhr term '
+         'with offsets in [0,12] h (interval domain), nothing flagged extreme and only conventional/interval values under policy None '
+         'in every skeleton world. Strict order between values of different solvers is numeric: not decided.',
+    note=ASSUME + '; acos in [0, pi]',
+    technique='key-set analysis + interval abstract domain on reconstructed terms + skeleton worlds')
+CHECKS['C06'] = dict(
+    text='Structural iff: every acos is guarded by the closed interval [-1,1] on exactly its own argument, guarded branch Ok / other Err, '
+         'no other validity source, sunrise/sunset share one guard, policy None preserves validity in every skeleton world. '
+         'That |cos H| > 1 matches the astronomical truth to 0.05 deg is numeric: not decided.',
+    note=ASSUME,
+    technique='guard/argument identity on reconstructed terms + skeleton worlds')
+CHECKS['C11'] = dict(
+    text='Exhaustive decision table of the time converter (4 modes x 6 keys; Imsaak via the Fajr key): action, threshold constant and '
+         'operator, carry constant, minute recomputed from the carried hour, >=24 and <0 wraps, offset key. Float edge behaviour at exact '
+         'second boundaries is not decided.',
+    note=ASSUME,
+    technique='conditional constant propagation / abstract interpretation of the converter for every (mode, key) + term pattern checks')
+CHECKS['C13'] = dict(
+    text='Wrap clause only (no wrap-induced jumps): modular-angle hygiene R1.2 as in C01. Second-difference and 4-minute bounds and the '
+         'calendar arithmetic are numeric: not decided.',
+    note=ASSUME + '; the compared angle moves < 1.2 deg/day',
+    technique='term-level modular-arithmetic (residue) analysis with seam-position case split')
+for _p in ['C02','C03','C04','C09','C10','C12','C14','C15','C16','C19']:
     NA[_p] = 'check not yet registered in this commit (design in DESIGN.md §4; being built)'
 NA['C17'] = 'calendar equality over 3.65 M dates is arithmetic over runtime values (float floor, data-dependent search loops): no clause is visible in the shape of the code'
 NA['C20'] = 'metamorphic relation between numeric outputs through the whole ephemeris; the only structural fact behind it is not a necessary condition'
